@@ -34,12 +34,11 @@ Definition dom_object (o : object) : bool :=
   | OInvalid => false
   end.
 
-(* in a triple the predicate id must not contain a space (the object split is searched by a regular expression that
-   looks for ']' blanks '/'), and the subject type must not contain a form feed (NewType rejects space, tab, newline
-   and CR only; the subject split looks for '>' blanks double-quote and form feed is a blank of Go's regexp class s) *)
+(* in a triple the subject type must not contain a form feed (NewType rejects space, tab, newline and CR only; the
+   subject split looks for '>' blanks double-quote and form feed is a blank of Go's regexp class s).
+   After F4b the predicate id is unrestricted. *)
 Definition dom_triple (t : triple) : bool :=
-  dom_node (subj t) && negb (memb x0c (ntype (subj t)))
-  && dom_pred (tpred t) && negb (memb c_space (pid (tpred t))) && dom_object (tobj t).
+  dom_node (subj t) && negb (memb x0c (ntype (subj t))) && dom_pred (tpred t) && dom_object (tobj t).
 
 (* in the line-oriented graph format no component may contain a newline: node ids and text literals are the only
    components printed raw (types cannot contain one, predicate ids are quoted, numbers and blobs are digits) *)
